@@ -2,6 +2,8 @@
 JSON, the Monitor, time.  Every model here is part of the trusted base and is listed in the evidence.
 """
 import re
+import os
+import sys
 
 import z3
 
@@ -522,6 +524,8 @@ def apply_serde_skips(ex, v, depth=0):
             if len(cands) != 1:
                 raise Unsupported('serde skip predicate %s not found in MIR' % pred)
             r = ex.call_fn(cands[0][0], [Ref([fv], 0)])
+            if os.environ.get('VERIF_DEBUG_SERDE'):
+                print('serde skip', name, fname, pred, '->', r, file=sys.stderr)
             if is_sym(r):
                 r = ex.branch(r, 'serde skip predicate')
             if r:
